@@ -1000,7 +1000,7 @@ PROPS["C10"] = dict(
 )
 PROPS["C14"] = dict(
     module="TmcgProps.C14",
-    areas=[("rbc", {"quick": 24, "thorough": 400}, [], "san")],
+    areas=[("rbc", {"quick": 24, "thorough": 120}, [], "san")],
     obligations=[("Tmcg.C14.agreement", "full"), ("Tmcg.C14.integrity", "full"), ("Tmcg.C14.no_duplication", "full"),
                  ("Tmcg.C14.non_vacuous", "full"), ("Tmcg.C14.digest_zero_breaks_agreement", "full"),
                  ("Tmcg.C14.delivery_spec", "full"), ("Tmcg.C14.delivery_spec_fails_with_skip", "full"),
